@@ -11,7 +11,41 @@ PATH_RE = re.compile(r"\b(?:[a-z_][a-z0-9_]*::)+")
 
 
 def strip_paths(s):
-    return PATH_RE.sub("", s)
+    return add_default_len(PATH_RE.sub("", s))
+
+
+def add_default_len(s):
+    """The compiler's printer elides defaulted generic arguments: FlatVec<T> = FlatVec<T, usize>, FlatString = FlatString<usize>."""
+    out = []
+    i = 0
+    while i < len(s):
+        m = re.match(r"(FlatVec|FlexVec)<", s[i:])
+        if m:
+            j = i + len(m.group(0))
+            depth, k = 1, j
+            commas = 0
+            while k < len(s) and depth:
+                if s[k] in "<[(":
+                    depth += 1
+                elif s[k] in ">])":
+                    depth -= 1
+                elif s[k] == "," and depth == 1:
+                    commas += 1
+                k += 1
+            inner = add_default_len(s[j:k - 1])
+            if commas == 0:
+                inner += ", usize"
+            out.append(m.group(1) + "<" + inner + ">")
+            i = k
+            continue
+        m = re.match(r"FlatString(?!<)", s[i:])
+        if m:
+            out.append("FlatString<usize>")
+            i += len("FlatString")
+            continue
+        out.append(s[i])
+        i += 1
+    return "".join(out)
 
 
 def split_generics(s):
@@ -114,6 +148,11 @@ def is_self(x):
     return x[0] == "param" and x[1] == 1
 
 
+def payload_range(fn, do, a):
+    return "core::slice::<impl [T]>::%s($__flatty_bytes, Range{%d, Add(%d, utils::floor_mul(Sub(core::slice::<impl [T]>::len($__flatty_bytes), %d), %d))})" % (
+        fn, do, do, do, a)
+
+
 def decl_lists(d):
     if d["kind"] == "struct":
         return [[f["fty"] for f in d["fields"]]]
@@ -174,8 +213,12 @@ def validate_rules(F, R, nm, d, m, cs):
             ok2 = recv[0] == "call" and recv[5] == ws[0]["bb"] and the_return(body) == [canon(e)]
         R.ob("F6.validate-all", fn, "validate_all", ok2, "%s: every field of the list is validated (validate_all on that walker is the result)" % nm, where=b["span"])
         # range of bytes walked: V5 (struct)
-        R.ob("V5.validated-range", fn, "struct-bytes", len(ws) == 1 and ws[0]["data"] == "$__flatty_bytes",
-             "%s: the validator walks the bytes it was given (the struct view is the last field's own view)" % nm, nontrivial=False, where=b["span"])
+        a = cs.get("ALIGN")
+        want_data = "$__flatty_bytes" if d["sized"] else \
+            "core::slice::<impl [T]>::get_unchecked($__flatty_bytes, RangeTo{utils::floor_mul(core::slice::<impl [T]>::len($__flatty_bytes), %d)})" % a
+        R.ob("V5.validated-range", fn, "struct-bytes", len(ws) == 1 and ws[0]["data"] == want_data,
+             "%s: the validator walks exactly the bytes the view covers: bytes[..floor_mul(len, ALIGN=%s)]%s" % (
+                 nm, a, "" if len(ws) == 1 and ws[0]["data"] == want_data else " -- found %s" % [w["data"] for w in ws]), where=b["span"])
         return
     # enums
     tagsz = {"u8": 1, "u16": 2, "u32": 4}[d["tag_eff"]]
@@ -237,15 +280,19 @@ def validate_rules(F, R, nm, d, m, cs):
              nm, lists, "" if okl else " -- found %s" % found), where=b["span"])
     # data slice: bytes[DATA_OFFSET..]
     datas = sorted({w["data"] for w in ws})
-    want_data = "core::slice::<impl [T]>::get_unchecked($__flatty_bytes, RangeFrom{%d})" % do
+    a = cs.get("ALIGN")
+    if d["sized"]:
+        want_data = "core::slice::<impl [T]>::get_unchecked($__flatty_bytes, RangeFrom{%d})" % do
+    else:
+        want_data = payload_range("get_unchecked", do, a)
     R.ob("F6.validate-data", fn, "payload-start", all(x == want_data for x in datas),
          "%s: variant payloads are walked from DATA_OFFSET (%s) of the given bytes%s" % (nm, do, "" if all(x == want_data for x in datas) else " -- found %s" % datas),
          where=b["span"])
-    # V5: validated range equals the view range floor_mul(len - DATA_OFFSET, ALIGN): the macro walks bytes[DATA_OFFSET..] (un-floored)
+    # V5: validated range equals the view range floor_mul(len - DATA_OFFSET, ALIGN)
     if not d["sized"]:
-        R.ob("V5.validated-range", fn, "enum-payload-range", False if datas == [want_data] and m["align"] > 1 else True,
-             "%s: the validator walks bytes[DATA_OFFSET..] but the view built by ptr_from_bytes covers floor_mul(len - DATA_OFFSET, ALIGN=%d) bytes: "
-             "a trailing field may be validated against more bytes than the value can reach" % (nm, m["align"]), where=b["span"])
+        R.ob("V5.validated-range", fn, "enum-payload-range", all(x == want_data for x in datas),
+             "%s: the validator walks exactly the payload the view covers: bytes[DATA_OFFSET..DATA_OFFSET + floor_mul(len - DATA_OFFSET, ALIGN=%s)]%s" % (
+                 nm, a, "" if all(x == want_data for x in datas) else " -- found %s" % datas), where=b["span"])
         # per-variant size gate
         gate_ok = False
         for sb2, st in body.switches():
@@ -299,10 +346,16 @@ def accept_set(body, width_max=70000):
         exact = None
         excluded = set()
         unknown = False
+        infeasible = False
         for ev in evs:
             if ev.kind != "branch":
                 continue
             c = ev.a
+            if c[0] == "const":
+                bt = bool_taken(ev)
+                if bt is not None and bt != bool(c[1]):
+                    infeasible = True
+                continue
             if c[0] == "bin":
                 bt = bool_taken(ev)
                 n_ = norm_cmp(c, bt) if bt is not None else None
@@ -346,6 +399,8 @@ def accept_set(body, width_max=70000):
                 elif isinstance(ev.b, tuple):
                     oks.extend(ev.b)
                     exact = "multi"
+        if infeasible:
+            continue
         if unknown:
             return None
         if exact == "multi":
@@ -516,7 +571,9 @@ def init_rules(F, R, nm, d, m, cs):
     R.ob("F6.init-returns-view", fn, "result", ret_ok, "%s: the initialiser returns the view of the whole given slice" % nm, where=b["span"])
     if d["kind"] == "struct":
         want = lists[0]
-        ok = len(ws) == 1 and ws[0]["types"] == want and ws[0]["kind"] == "new" and ws[0]["data"] == "$__flatty_bytes"
+        a = cs.get("ALIGN")
+        want_sdata = "core::slice::<impl [T]>::get_unchecked_mut($__flatty_bytes, RangeTo{utils::floor_mul(core::slice::<impl [T]>::len($__flatty_bytes), %d)})" % a
+        ok = len(ws) == 1 and ws[0]["types"] == want and ws[0]["kind"] == "new" and ws[0]["data"] == want_sdata
         ok = ok and _field_emplacements(body, em, None, len(want), set(range(body.n)))
         R.ob("F6.init-list", fn, "fields", ok,
              "%s: the initialiser checks and walks the declared field list %s; field k of the Init value is emplaced into slot k%s" % (
@@ -530,7 +587,9 @@ def init_rules(F, R, nm, d, m, cs):
     sbb, tvm, other = sw[0]
     okl, oktag, okdata, r1 = True, True, True, True
     why = ""
-    want_data = "core::slice::<impl [T]>::get_unchecked_mut($__flatty_bytes, RangeFrom{%d})" % do
+    a = cs.get("ALIGN")
+    want_data = payload_range("get_unchecked_mut", do, a)
+    gates = find_calls(body, "TypeIter::check_align_and_min_size")
     for i, want in enumerate(lists):
         tgt = tvm.get(i)
         if tgt is None and len([k for k in range(len(lists)) if k not in tvm]) == 1:
@@ -565,9 +624,30 @@ def init_rules(F, R, nm, d, m, cs):
         if not _field_emplacements(body, [c for c in em if c[0] in reg], vname, len(want), reg):
             okl = False
             why = "variant %s: field/slot order" % vname
-        # R1 (C18): the tag store must not precede the per-variant size gate (DataIter::new can still fail after the tag was written)
-        if tags and w and body.dominates(tags[0][0], w[0]["bb"]):
-            r1 = False
+        # R1 (C18): the tag store is dominated by the success edge of the per-variant size gate on the same payload range
+        if tags and w:
+            g = [c for c in gates if c[0] in reg]
+            good = False
+            if len(g) == 1:
+                ge = body.expr_of_call(g[0][1], 0, g[0][0])
+                gl = typelist(g[0][1]["call"]["args"][0]) if g[0][1]["call"]["args"] else None
+                same = gl == want and canon(ge[3][1]) == payload_range("get_unchecked", do, a)
+                okedge = False
+                for sb2, st in body.switches():
+                    cond = body.expr_of_operand(st["switch"])
+                    if cond[0] == "discr":
+                        x = strip(cond[1])
+                        if x[0] == "call" and call_matches(x, "Try::branch"):
+                            inner = strip(x[3][0])
+                            while inner[0] == "call" and call_matches(inner, "map_err"):
+                                inner = strip(inner[3][0])
+                            if inner[0] == "call" and inner[5] == g[0][0]:
+                                tvm2 = {int(v): tb for v, tb in st["targets"]}
+                                if 0 in tvm2 and body.edge_dominates((sb2, tvm2[0]), tags[0][0]):
+                                    okedge = True
+                good = same and okedge
+            if not good:
+                r1 = False
     R.ob("F6.init-tag", fn, "tag", oktag, "%s: initialising variant V stores Tag::V at the start of the slice%s" % (nm, "" if oktag else " -- " + why), where=b["span"])
     R.ob("F6.init-list", fn, "variants", okl,
          "%s: initialising variant i checks and walks the declared field list of variant i; field k goes to slot k%s" % (nm, "" if okl else " -- " + why),
@@ -575,11 +655,11 @@ def init_rules(F, R, nm, d, m, cs):
     R.ob("F6.init-data", fn, "payload-start", okdata, "%s: payload fields are emplaced from DATA_OFFSET (%s)" % (nm, do), where=b["span"])
     anyfields = any(lists)
     if anyfields:
-        R.ob("V5i.init-range", fn, "enum-payload-range", not (okdata and m["align"] > 1),
-             "%s: the initialiser hands bytes[DATA_OFFSET..] (un-floored) to the field emplacers while the returned view covers floor_mul(len - DATA_OFFSET, ALIGN=%d)" % (nm, m["align"]),
+        R.ob("V5i.init-range", fn, "enum-payload-range", okdata,
+             "%s: the initialiser hands the field emplacers exactly the payload the returned view covers (floor_mul(len - DATA_OFFSET, ALIGN=%s))" % (nm, a),
              where=b["span"])
         R.ob("R1.tag-after-size-gate", fn, "order", r1,
-             "%s: the tag is written before the per-variant size check (DataIter::new): a refused assignment leaves the new tag over the old payload" % nm,
+             "%s: the tag is stored only after the per-variant size check on the payload succeeded (a refused assignment keeps the old tag)" % nm,
              where=b["span"])
 
 
@@ -625,8 +705,8 @@ def ptr_rules(F, R, nm, d, m, cs):
     else:
         lfo = cs.get("LAST_FIELD_OFFSET")
         okf = len(rf) == 1 and re.match(
-            r"^core::ptr::slice_from_raw_parts_mut\(core::ptr::mut_ptr::<impl \*mut T>::offset\(<(.*) as FlatUnsized>::ptr_from_bytes\(mem::offset_slice_ptr_start\(\$__flatty_bytes, \(%d as isize\)\)\), Neg\(\(%d as isize\)\)\), core::ptr::non_null::NonNull::<\[T\]>::len\(core::ptr::non_null::NonNull::<T>::new_unchecked\(<\1 as FlatUnsized>::ptr_from_bytes\(mem::offset_slice_ptr_start\(\$__flatty_bytes, \(%d as isize\)\)\)\)\)\)$" % (lfo, lfo, lfo),
-            rf[0]) is not None
+            r"^core::ptr::slice_from_raw_parts_mut\(core::ptr::mut_ptr::<impl \*mut T>::offset\(<(.*) as FlatUnsized>::ptr_from_bytes\(mem::offset_slice_ptr_start\(FLOORED, \(%d as isize\)\)\), Neg\(\(%d as isize\)\)\), core::ptr::non_null::NonNull::<\[T\]>::len\(core::ptr::non_null::NonNull::<T>::new_unchecked\(<\1 as FlatUnsized>::ptr_from_bytes\(mem::offset_slice_ptr_start\(FLOORED, \(%d as isize\)\)\)\)\)\)$" % (lfo, lfo, lfo),
+            rf[0].replace("mem::set_slice_ptr_len($__flatty_bytes, utils::floor_mul(mem::slice_ptr_len($__flatty_bytes), %d))" % a, "FLOORED")) is not None
         R.ob("F1.struct-view", nm + "::ptr_from_bytes", "delegation", okf,
              "%s: the struct view is the last field's view of bytes[LAST_FIELD_OFFSET(%s)..], moved back by the same offset%s" % (nm, lfo, "" if okf else " -- found %s" % rf),
              where=pf["span"])
@@ -636,10 +716,9 @@ def ptr_rules(F, R, nm, d, m, cs):
         R.ob("F1.struct-bytes", nm + "::ptr_to_bytes", "delegation", okt,
              "%s: the struct's bytes are the last field's bytes extended back by LAST_FIELD_OFFSET%s" % (nm, "" if okt else " -- found %s" % rt), where=pt["span"])
         # in-bounds lemma for struct views needs len floored to ALIGN when ALIGN > last field's granule
-        last = d["fields"][-1]
-        R.ob("F1.struct-view-floor", nm + "::ptr_from_bytes", "granule", not (okf and a > last["align"]),
-             "%s: the slice length is not floored to the struct's ALIGN (%s) before delegating to the last field (granule %s): "
-             "size_of_val of the view can exceed the slice" % (nm, a, last["align"]), where=pf["span"])
+        R.ob("F1.struct-view-floor", nm + "::ptr_from_bytes", "granule", okf and "utils::floor_mul(mem::slice_ptr_len($__flatty_bytes), %d)" % a in rf[0],
+             "%s: the slice length is floored to the struct's ALIGN (%s) before delegating to the last field, so size_of_val(view) <= len" % (nm, a),
+             where=pf["span"])
 
 
 # ------------------------------------------------------------------ defaults
@@ -694,3 +773,34 @@ def default_rules(F, R, nm, d, m, cs):
         R.ob("D2.enum-default", fn, "variant", bool(ok),
              "%s: the default emplacer initialises the variant the source marks #[default] (%s)%s" % (nm, want, "" if ok else " -- found %s / %s" % (rets, at)),
              where=b["span"])
+
+
+def tag_accept_rules(F, R):
+    """V2: for every field-less repr(int) enum with a FlatValidate impl (generated Tag enums, C-like #[flat] enums, Bool):
+    the set of raw values reaching Ok equals the set of declared discriminants."""
+    n = 0
+    for b in F.bodies:
+        im = b.get("impl")
+        if not im or im.get("trait") != "flatty_base::traits::FlatValidate" or im.get("method") != "validate_unchecked":
+            continue
+        if b["defkind"] == "Closure":
+            continue
+        adt = F.adts.get(im.get("self_adt") or "")
+        if not adt or adt["adt_kind"] != "enum" or any(v["fields"] for v in adt["variants"]) or not adt["repr_int"]:
+            continue
+        discrs = sorted(int(v["discr"]) for v in adt["variants"])
+        body = Body(b)
+        acc = accept_set(body)
+        n += 1
+        nm = im["self"]
+        R.ob("V2.tag-accept-set", nm + "::validate_unchecked", "raw-value", acc == discrs,
+             "%s: raw values accepted %s = declared discriminants %s" % (nm, acc, discrs), where=b["span"])
+        # the raw value is loaded as an integer (never as the enum) before the check
+        loads_enum = False
+        for bb, t in body.calls():
+            c = t["call"]
+            if c.get("def", "").endswith("from_bytes_unchecked") and c["args"] and c["args"][0] == nm:
+                loads_enum = True
+        R.ob("V2.raw-integer", nm + "::validate_unchecked", "load", not loads_enum,
+             "%s: the validator inspects the raw integer, it does not read the bytes as the enum" % nm, nontrivial=False, where=b["span"])
+    R.floor("V2", "field-less enum validators", n, 10)
